@@ -450,7 +450,30 @@ func c09SchedOps() []sop {
 		{"PANIC NewLunarFromYmd(2020,13,1)", func(sh *shared, t *thr) string { return fmt.Sprint(calendar.NewLunarFromYmd(2020, 13, 1)) }},
 		{"shared.GetDayNineStar()", func(sh *shared, t *thr) string { return sh.l1.GetDayNineStar().String() }},
 		{"shared.GetEightChar().GetYear()", func(sh *shared, t *thr) string { return sh.l2.GetEightChar().GetYear() + sh.l2.GetEightChar().GetDay() }},
+		// civil-side callers in years whose month tables differ (leap year, common year, 1582): nothing here takes a lock on
+		// the pinned tree, so each is one atomic block; a change that puts shared scratch state behind a mutex on this side
+		// gets its lock points explored like the year cache's
+		{"civil 2020 (leap year)", func(sh *shared, t *thr) string { return civilDigest(2020) }},
+		{"civil 2019 (common year)", func(sh *shared, t *thr) string { return civilDigest(2019) }},
+		{"civil 1582 (short October)", func(sh *shared, t *thr) string { return civilDigest(1582) }},
 	}
+}
+
+// civilDigest: what the civil-side helpers and constructors answer around the end of February and in October of year y.
+func civilDigest(y int) string {
+	var b strings.Builder
+	for m := 1; m <= 12; m++ {
+		fmt.Fprintf(&b, "%d,", SolarUtil.GetDaysOfMonth(y, m))
+	}
+	fmt.Fprintf(&b, "|%d|%d|%v|", SolarUtil.GetDaysOfYear(y), SolarUtil.GetDaysInYear(y, 12, 31), SolarUtil.IsLeapYear(y))
+	for _, md := range [][2]int{{2, 28}, {2, 29}, {10, 4}, {10, 10}, {10, 31}, {12, 31}} {
+		b.WriteString(safeDigest(func() string {
+			s := calendar.NewSolarFromYmd(y, md[0], md[1])
+			return s.ToYmd() + ">" + s.NextDay(1).ToYmd() + ">" + s.NextDay(-1).ToYmd() + ">" + fmt.Sprint(s.GetWeek(), s.Subtract(calendar.NewSolarFromYmd(y, 1, 1)))
+		}) + ";")
+	}
+	b.WriteString(safeDigest(func() string { return lunarYmd(calendar.NewSolarFromYmd(y, 3, 1).GetLunar()) }))
+	return b.String()
 }
 
 type scenario struct {
@@ -460,7 +483,7 @@ type scenario struct {
 
 func c09Scenarios() []scenario {
 	var sc []scenario
-	n := 8
+	n := len(c09SchedOps())
 	for a := 0; a < n; a++ {
 		for b := a; b < n; b++ {
 			sc = append(sc, scenario{fmt.Sprintf("pair[%d|%d]", a, b), [][]int{{a}, {b}}})
@@ -1059,6 +1082,24 @@ func c09Purity(w *W) {
 					w.Viol("C09:accessor-writes-object:"+name+"."+mname, fmt.Sprintf("read-only accessor %s.%s changed the private state of the object it was called on (no lock operation occurred during the call, so the write is unsynchronised: concurrent callers on a shared %s race): %s", name, mname, name, firstDiffWords(strings.ReplaceAll(before, ";", " "), strings.ReplaceAll(after, ";", " "))), name+"."+mname)
 				}
 				_ = hs0
+			}
+			// methods with small int / bool arguments (Next(n), Next(n, onlyWorkday), GetYun(gender), ...BySect(sect), ...) do
+			// not write to their receiver either
+			{
+				obj := sharedObjects()[name]
+				v := reflect.ValueOf(obj)
+				mnames, calls := smallArgCalls(v)
+				for k, call := range calls {
+					before := deepSnap(v, 4, map[uintptr]bool{})
+					p0 := t.points
+					call()
+					after := deepSnap(v, 4, map[uintptr]bool{})
+					w.R.Transitions++
+					w.R.Evals++
+					if before != after && t.points == p0 {
+						w.Viol("C09:method-writes-receiver:"+name+"."+mnames[k], fmt.Sprintf("%s.%s changed the private state of the object it was called on (no lock operation occurred during the call): %s", name, mnames[k], firstDiffWords(strings.ReplaceAll(before, ";", " "), strings.ReplaceAll(after, ";", " "))), name+"."+mnames[k])
+					}
+				}
 			}
 			w.R.States++
 		}
